@@ -29,7 +29,11 @@ Inductive dnode :=
 | DnScalar (s : scalar)
 | DnBytes (b : list N) (l : option (list N))        (* AsBytes; AsLargeBytes+ReadAll when offered *)
 | DnList (len : Z) (items : list dnode) (lk : list kind)
-| DnMap (len : Z) (ents : list (bytes * dnode)) (lk : list kind).
+| DnMap (len : Z) (ents : list (bytes * dnode)) (lk : list kind) (pk : list kind).   (* pk: lookups of the probe keys *)
+
+(* keys looked up in every map on every dump, present or not: "a" "b" "c" "k" "" "0" "1" "ab" "key" "z" "q" "new" *)
+Definition probe_keys : list bytes :=
+  [[97]; [98]; [99]; [107]; []; [48]; [49]; [97; 98]; [107; 101; 121]; [122]; [113]; [110; 101; 119]]%N.
 
 Definition kind_skind (k : kind) : option skind :=
   match k with
@@ -80,7 +84,10 @@ Fixpoint dump (fuel : nat) (x : X) (r : nref) : X * dnode :=
             let '(x4, ks) := fold_left (fun acc kc => let '(xa, ks) := acc in
                                           let '(xb, k) := lookup_kind xa r (ALookupS (fst kc)) in (xb, ks ++ [k]))
                                        l (x3, []) in
-            (x4, DnMap n ds ks)
+            let '(x5, ps) := fold_left (fun acc k => let '(xa, ps) := acc in
+                                          let '(xb, kd) := lookup_kind xa r (ALookupS k) in (xb, ps ++ [kd]))
+                                       probe_keys (x4, []) in
+            (x5, DnMap n ds ks ps)
         | _, _ => (x2, DnErr 4)
         end
     | k =>
